@@ -20,7 +20,7 @@ struct Exp { bool resp = false; uint8_t cs = 0; int check = 0; uint8_t err = 0; 
 
 struct C18 {
   Ctx &c; Sim s; World w; uint32_t ident[4]; Model m[8]; uint8_t nodeid; int nmt = 2;
-  bool via_selective = false, store_reset = false; bool stored_ok = false;
+  bool via_selective = false, store_reset = false; bool stored_ok = false; int nfail = 0;
 
   C18(Ctx &cx) : c(cx), s(cx), w(s) { for (int i = 0; i < 8; i++) { m[i].restart = i & 1; m[i].independent = i & 2; m[i].keep_done = i & 4; } }
 
@@ -133,7 +133,10 @@ struct C18 {
     else if (k < 26) { uint32_t a = k == 23 ? (3u << 8) : k == 24 ? (5u << 8) : (1u | 3u << 8); lss(L(19, a), "configure bit timing"); }
     else if (k == 26) { Frame f = L(19, 10u << 8); lss(f, "configure bit timing (index 10)"); }
     else if (k == 27) { s.lss_store_result = CO_ERR_NONE; lss(L(23, 0), "store configuration"); }
-    else if (k == 28) { s.lss_store_result = CO_ERR_LSS_STORE; lss(L(23, 0), "store configuration (application reports failure)"); s.lss_store_result = CO_ERR_NONE; }
+    else if (k == 28) {   // the application reports a failure: any code other than CO_ERR_NONE (co_lss.h), derived - not drawn - so that saved tapes keep their meaning
+      static const CO_ERR FC[3] = {CO_ERR_LSS_STORE, CO_ERR_IF_NVM_WRITE, CO_ERR_BAD_ARG};
+      s.lss_store_result = FC[(ident[0] + ident[3] + (uint32_t)nfail++) % 3]; if (s.lss_store_result != CO_ERR_LSS_STORE) c.cls("store-fails-with-a-foreign-error-code");
+      lss(L(23, 0), "store configuration (application reports failure)"); s.lss_store_result = CO_ERR_NONE; }
     else if (k < 33) lss(L((uint8_t)(90 + k - 29), 0), "inquire identity");
     else if (k == 33) lss(L(94, 0), "inquire node-id");
     else if (k < 50) { uint32_t j = k - 34; int pos = j < 2 ? 0 : j < 4 ? 1 : 2 + (int)(j - 4) / 3; int var = j < 4 ? (int)(j % 2) * 3 : (int)(j - 4) % 3; lss(L((uint8_t)(70 + pos), arg(IW[pos], var)), "identify remote slave"); }
